@@ -404,7 +404,7 @@ Section FlatSpec.
     (1 <= p \/ fkm F kind p = true) ->
     exists s j, f_wordlast_loop F L fuel kind 1 p = Some (s, j) /\ p - 1 <= j < L /\
       (forall k, p <= k <= j -> fkm F kind k = true) /\
-      (if s : bool then j = L - 1 else fkm F kind (j + 1) = false).
+      (if s : bool then j = L - 1 else j + 1 < L /\ fkm F kind (j + 1) = false).
   Proof.
     induction fuel as [|f IH]; intros p Hp Hf H1; [lia|]. cbn [f_wordlast_loop].
     destruct (fkm F kind p) eqn:Ek.
@@ -416,14 +416,14 @@ Section FlatSpec.
         intros k Hk'. replace k with p by lia. exact Ek.
     - destruct H1 as [H1|H1]; [|congruence]. rewrite fnext_ok by lia. cbn [snd].
       exists false, (p + - (1)). split; [reflexivity|]. split; [lia|]. split; [intros; lia|].
-      replace (p + - (1) + 1) with p by lia. exact Ek.
+      replace (p + - (1) + 1) with p by lia. split; [lia|exact Ek].
   Qed.
 
   Lemma f_wordlast_loop_bwd kind : forall fuel p, 0 <= p < L -> Z.of_nat fuel > p + 1 ->
     (p + 1 < L \/ fkm F kind p = true) ->
     exists s j, f_wordlast_loop F L fuel kind (-1) p = Some (s, j) /\ 0 <= j <= p + 1 /\
       (forall k, j <= k <= p -> fkm F kind k = true) /\
-      (if s : bool then j = 0 else fkm F kind (j - 1) = false).
+      (if s : bool then j = 0 else 1 <= j /\ fkm F kind (j - 1) = false).
   Proof.
     induction fuel as [|f IH]; intros p Hp Hf H1; [lia|]. cbn [f_wordlast_loop].
     destruct (fkm F kind p) eqn:Ek.
@@ -435,7 +435,7 @@ Section FlatSpec.
         intros k Hk'. replace k with p by lia. exact Ek.
     - destruct H1 as [H1|H1]; [|congruence]. rewrite fnext_ok by lia. cbn [snd].
       exists false, (p + - (-1)). split; [reflexivity|]. split; [lia|]. split; [intros; lia|].
-      replace (p + - (-1) - 1) with p by lia. exact Ek.
+      replace (p + - (-1) - 1) with p by lia. split; [lia|exact Ek].
   Qed.
 
   (* lbuf_wordlast as lbuf_wordbeg / lbuf_wordend call it: to the end of the run containing i *)
@@ -448,7 +448,7 @@ Section FlatSpec.
   Lemma f_wordlast_fwd (big : bool) fuel i : 0 <= i < L -> Z.of_nat fuel > L -> kd i <> 0%N ->
     exists s q, f_wordlast F L fuel (if big then 3%N else kd i) 1 i = Some (s, q) /\ i <= q < L /\
       (forall k, i <= k <= q -> inw big (kd i) k = true) /\
-      (if s : bool then q = L - 1 else inw big (kd i) (q + 1) = false).
+      (if s : bool then q = L - 1 else q + 1 < L /\ inw big (kd i) (q + 1) = false).
   Proof.
     intros Hi Hf Hk. pose proof (kd_12 i Hk) as H12. pose proof (fkm_inw big (kd i) i H12) as Hii.
     rewrite inw_self in Hii by exact Hk.
@@ -457,7 +457,7 @@ Section FlatSpec.
     destruct (f_wordlast_loop_fwd (if big then 3%N else kd i) fuel i) as (s & q & E & Hq & Hr & Hs); [lia|lia|auto|].
     exists s, q. split; [exact E|].
     assert (i <= q) by (destruct (Z_le_dec i q); [assumption|]; exfalso;
-      assert (q + 1 = i) by lia; destruct s; [lia|]; replace (q + 1) with i in Hs by lia; congruence).
+      assert (q + 1 = i) by lia; destruct s; [lia|]; destruct Hs as [_ Hs]; replace (q + 1) with i in Hs by lia; congruence).
     split; [lia|]. split.
     - intros k Hk'. rewrite <- fkm_inw by exact H12. apply Hr. lia.
     - destruct s; [exact Hs|]. rewrite <- fkm_inw by exact H12. exact Hs.
@@ -466,7 +466,7 @@ Section FlatSpec.
   Lemma f_wordlast_bwd (big : bool) fuel i : 0 <= i < L -> Z.of_nat fuel > L -> kd i <> 0%N ->
     exists s q, f_wordlast F L fuel (if big then 3%N else kd i) (-1) i = Some (s, q) /\ 0 <= q <= i /\
       (forall k, q <= k <= i -> inw big (kd i) k = true) /\
-      (if s : bool then q = 0 else inw big (kd i) (q - 1) = false).
+      (if s : bool then q = 0 else 1 <= q /\ inw big (kd i) (q - 1) = false).
   Proof.
     intros Hi Hf Hk. pose proof (kd_12 i Hk) as H12. pose proof (fkm_inw big (kd i) i H12) as Hii.
     rewrite inw_self in Hii by exact Hk.
@@ -475,7 +475,7 @@ Section FlatSpec.
     destruct (f_wordlast_loop_bwd (if big then 3%N else kd i) fuel i) as (s & q & E & Hq & Hr & Hs); [lia|lia|auto|].
     exists s, q. split; [exact E|].
     assert (q <= i) by (destruct (Z_le_dec q i); [assumption|]; exfalso;
-      assert (q - 1 = i) by lia; destruct s; [lia|]; replace (q - 1) with i in Hs by lia; congruence).
+      assert (q - 1 = i) by lia; destruct s; [lia|]; destruct Hs as [_ Hs]; replace (q - 1) with i in Hs by lia; congruence).
     split; [lia|]. split.
     - intros k Hk'. rewrite <- fkm_inw by exact H12. apply Hr. lia.
     - destruct s; [exact Hs|]. rewrite <- fkm_inw by exact H12. exact Hs.
@@ -560,7 +560,7 @@ Section FlatSpec.
             -- apply N.eqb_eq in R1, R2. congruence.
           * apply kd_sp in Hsp. apply (Hnz k); [lia|exact Hsp].
         + right. apply kd_nsp, Hnz. lia.
-        + destruct s0; [exact Hs|]. intros j Hj Hsp Hnsp. split; [apply kd_nsp, Hnsp|]. right.
+        + destruct s0; [exact Hs|]. destruct Hs as [_ Hs]. intros j Hj Hsp Hnsp. split; [apply kd_nsp, Hnsp|]. right.
           destruct (Z.eq_dec (j - 1) q) as [Ej|Ej].
           * replace (q + 1) with j in Hs by lia. rewrite Ej. pose proof (Hrun q ltac:(lia)) as R1. unfold inw in Hs, R1.
             destruct big.
@@ -613,6 +613,293 @@ Proof.
   destruct (f_wordbeg_fwd (fchr b) (nchars b) big (mfuel b) (idx b r o) (idx_range b r o V) (mfuel_enough b))
     as (s & j & E & Hj & Hmin & Hs).
   rewrite E in HS. destruct (lbuf_wordbeg (mfuel b) b big 1 r o) as [[[s' r'] o']|]; cbn in HS; [|contradiction].
+  destruct HS as (-> & V' & I'). exists s, r', o'. split; [reflexivity|]. split; [exact V'|]. cbv zeta. rewrite I'.
+  split; [lia|]. split; [exact Hmin|exact Hs].
+Qed.
+
+(* ---------- e E : lbuf_wordend forward ---------- *)
+Section FlatSpecE.
+  Variable F : Z -> chr.
+  Variable L : Z.
+  Local Notation kd i := (uc_kind (F i)).
+  Local Notation sp i := (uc_isspace (F i)).
+  Local Notation nlc i := (is_nl (F i)).
+
+  (* the scan also stops on the second line break p crossed while only blanks have been seen *)
+  Definition e_blank_stop (i p : Z) : Prop :=
+    nlc p = true /\ (forall k, i < k < p -> sp k = true) /\ exists p', i <= p' < p /\ nlc p' = true /\ sp p' = true.
+  Definition e_stop (big : bool) (i k : Z) : Prop := word_end F L big k \/ e_blank_stop i k.
+
+  Lemma f_wordend_loop_fwd p0 : 0 <= p0 -> forall fuel p nl0, p0 <= p < L -> Z.of_nat fuel > L - p ->
+    (forall k, p0 <= k < p -> sp k = true) -> (forall k, p0 < k <= p -> ~ bstop F p0 k) -> (nl0 = 0 \/ nl0 = 1) ->
+    (nl0 = 1 <-> exists p', p0 <= p' <= p /\ nlc p' = true) ->
+    exists inner s j, f_wordend_loop F L fuel 1 nl0 p = Some (inner, (s, j)) /\ p <= j < L /\
+      (forall k, p0 <= k < j -> sp k = true) /\ (forall k, p0 < k < j -> ~ bstop F p0 k) /\
+      (if inner : bool
+       then (if s : bool then j = L - 1 /\ sp j = true /\ (p0 < j -> ~ bstop F p0 j) else p < j /\ bstop F p0 j)
+       else s = false /\ sp j = false /\ (p0 < j -> ~ bstop F p0 j)).
+  Proof.
+    intro Hp0. induction fuel as [|f IH]; intros p nl0 Hp Hf Hsp Hnb Hn Hiff; [lia|]. cbn [f_wordend_loop].
+    destruct (sp p) eqn:Esp.
+    - destruct (Z_lt_dec (p + 1) L) as [Hl|Hl].
+      + rewrite fnext_ok by lia. cbv zeta. set (d := if nlc (p + 1) then 1 else 0).
+        assert (Hd : (d = 1 /\ nlc (p + 1) = true) \/ (d = 0 /\ nlc (p + 1) = false)) by (unfold d; destruct (nlc (p + 1)); auto).
+        clearbody d.
+        assert (Hsp' : forall k, p0 <= k < p + 1 -> sp k = true).
+        { intros k Hk. destruct (Z.eq_dec k p) as [->|]; [exact Esp|apply Hsp; lia]. }
+        destruct (Z.eqb_spec (nl0 + d) 2) as [E2|E2].
+        * change (1 <? 0) with false. cbv iota.
+          exists true, false, (p + 1). split; [reflexivity|]. split; [lia|]. split; [exact Hsp'|].
+          split; [intros k Hk; apply Hnb; lia|]. split; [lia|]. split.
+          -- destruct Hd as [[_ H]|[H _]]; [exact H|lia].
+          -- assert (Hx : nl0 = 1) by lia. apply Hiff in Hx. destruct Hx as (p' & Hp' & Hx). exists p'. split; [lia|exact Hx].
+        * assert (NB : ~ bstop F p0 (p + 1)).
+          { intros (Hnl & p' & Hp' & Hx). assert (nl0 = 1) by (apply Hiff; exists p'; split; [lia|exact Hx]).
+            destruct Hd as [[H1 _]|[_ H1]]; [lia|congruence]. }
+          destruct (IH (p + 1) (nl0 + d)) as (inner & s & j & E & Hj & Hk & Hm & Hs); try lia; try exact Hsp'.
+          { intros k Hk. destruct (Z.eq_dec k (p + 1)) as [->|]; [exact NB|apply Hnb; lia]. }
+          { split.
+            - intro H1. destruct Hd as [[Hd1 Hd2]|[Hd1 Hd2]].
+              + exists (p + 1). split; [lia|exact Hd2].
+              + assert (Hx : nl0 = 1) by lia. apply Hiff in Hx. destruct Hx as (p' & Hp' & Hx). exists p'. split; [lia|exact Hx].
+            - intros (p' & Hp' & Hx). destruct (Z.eq_dec p' (p + 1)) as [->|Hne].
+              + destruct Hd as [[Hd1 Hd2]|[Hd1 Hd2]]; [|congruence]. lia.
+              + assert (Hy : nl0 = 1) by (apply Hiff; exists p'; split; [lia|exact Hx]). lia. }
+          exists inner, s, j. split; [exact E|]. split; [lia|]. split; [exact Hk|]. split; [exact Hm|].
+          destruct inner; [|exact Hs]. destruct s; [exact Hs|]. destruct Hs as [H1 H2]. split; [lia|exact H2].
+      + rewrite fnext_fail by lia. exists true, true, p. split; [reflexivity|]. split; [lia|]. split; [exact Hsp|].
+        split; [intros k Hk; apply Hnb; lia|]. split; [lia|]. split; [exact Esp|]. intro. apply Hnb. lia.
+    - exists false, false, p. split; [reflexivity|]. split; [lia|]. split; [exact Hsp|].
+      split; [intros k Hk; apply Hnb; lia|]. split; [reflexivity|]. split; [exact Esp|]. intro. apply Hnb. lia.
+  Qed.
+
+  Lemma f_wordend_fwd (big : bool) fuel i : 0 <= i < L -> Z.of_nat fuel > L ->
+    exists s j, f_wordend F L fuel big 1 i = Some (s, j) /\ i <= j < L /\
+      (forall k, i < k < j -> ~ e_stop big i k) /\
+      (if s : bool then j = L - 1 /\ (i < j -> ~ e_stop big i j) else i < j /\ e_stop big i j).
+  Proof.
+    intros Hi Hf. unfold f_wordend.
+    (* the common part: the loop from p0, then lbuf_wordlast *)
+    assert (HC : forall p0, p0 < L -> (p0 = i /\ sp i = true) \/ (p0 = i + 1 /\ sp i = false) ->
+      exists s j,
+        match f_wordend_loop F L fuel 1 (0 + (if (0 <? 1) && nlc p0 then 1 else 0)) p0 with
+        | None => None
+        | Some (true, res) => Some res
+        | Some (false, (_, p')) => f_wordlast F L fuel (if big then 3%N else kd p') 1 p'
+        end = Some (s, j) /\ i <= j < L /\
+        (forall k, i < k < j -> ~ e_stop big i k) /\
+        (if s : bool then j = L - 1 /\ (i < j -> ~ e_stop big i j) else i < j /\ e_stop big i j)).
+    { intros p0 Hp0 Hc. change (0 <? 1) with true. cbn [andb].
+      destruct (f_wordend_loop_fwd p0 ltac:(lia) fuel p0 (0 + (if nlc p0 then 1 else 0))) as (inner & s & j & E & Hj & Hsp & Hnb & Hs); try lia.
+      { destruct (nlc p0); auto. }
+      { split.
+        - intro H1. exists p0. split; [lia|]. destruct (nlc p0); [reflexivity|lia].
+        - intros (p' & Hp' & Hx). replace p' with p0 in Hx by lia. rewrite Hx. reflexivity. }
+      rewrite E.
+      (* blank stops seen from i and from p0 agree *)
+      assert (B1 : forall k, i < k -> e_blank_stop i k -> p0 < k /\ bstop F p0 k).
+      { intros k Hk (Hnl & Hspk & p' & Hp' & Hnl' & Hsp').
+        assert (p0 <= p') by (destruct Hc as [[-> _]|[-> Hc]]; [lia|]; destruct (Z.eq_dec p' i) as [->|]; [congruence|lia]).
+        split; [lia|]. split; [exact Hnl|]. exists p'. split; [lia|exact Hnl']. }
+      assert (B2 : forall k, p0 < k -> (forall m, p0 <= m < k -> sp m = true) -> bstop F p0 k -> e_blank_stop i k).
+      { intros k Hk Hspk (Hnl & p' & Hp' & Hnl'). split; [exact Hnl|]. split.
+        - intros m Hm. apply Hspk. lia.
+        - exists p'. split; [lia|]. split; [exact Hnl'|]. apply Hspk. lia. }
+      assert (M1 : forall k, i < k < j -> ~ e_stop big i k).
+      { intros k Hk [(Hk0 & _)|Hb].
+        - apply kd_nsp in Hk0. rewrite Hsp in Hk0 by lia. discriminate.
+        - destruct (B1 k ltac:(lia) Hb) as [H1 H2]. apply (Hnb k); [lia|exact H2]. }
+      destruct inner.
+      - exists s, j. split; [reflexivity|]. split; [lia|]. split; [exact M1|]. destruct s.
+        + destruct Hs as (Ej & Hspj & Hnbj). split; [exact Ej|]. intros Hij [(Hk0 & _)|Hb].
+          * apply kd_nsp in Hk0. congruence.
+          * destruct (B1 j Hij Hb) as [H1 H2]. apply Hnbj; assumption.
+        + destruct Hs as [H1 H2]. split; [lia|]. right. apply B2; [lia|exact Hsp|exact H2].
+      - destruct Hs as (-> & Hnsp & Hnbj).
+        assert (Hij : i < j) by (destruct Hc as [[-> Hc]|[-> _]]; [|lia]; destruct (Z.eq_dec j i) as [->|]; [congruence|lia]).
+        assert (Hkj : kd j <> 0%N) by (apply kd_nsp, Hnsp).
+        destruct (f_wordlast_fwd F L big fuel j ltac:(lia) Hf Hkj) as (s' & q & EW & Hq & Hrun & Hs').
+        exists s', q. split; [exact EW|]. split; [lia|].
+        assert (NJ : ~ e_blank_stop i j).
+        { intro Hb. destruct (B1 j Hij Hb) as [H1 H2]. apply Hnbj; assumption. }
+        assert (NK : forall k, j < k -> ~ e_blank_stop i k).
+        { intros k Hk (_ & Hspk & _). rewrite Hspk in Hnsp by lia. discriminate. }
+        assert (Hnz : forall k, j <= k <= q -> kd k <> 0%N) by (intros k Hk; eapply inw_nz; [exact Hkj|apply Hrun, Hk]).
+        assert (M2 : forall k, i < k < q -> ~ e_stop big i k).
+        { intros k Hk. destruct (Z_lt_dec k j) as [Hlt|Hge]; [apply M1; lia|].
+          intros [(Hk0 & Hk1 & Hnext)|Hb].
+          - pose proof (Hrun k ltac:(lia)) as R1. pose proof (Hrun (k + 1) ltac:(lia)) as R2. unfold inw in R1, R2.
+            destruct big.
+            + apply (Hnz (k + 1)); [lia|exact Hnext].
+            + apply N.eqb_eq in R1, R2. congruence.
+          - destruct (Z.eq_dec k j) as [->|]; [exact (NJ Hb)|apply (NK k); [lia|exact Hb]]. }
+        split; [exact M2|]. destruct s'.
+        + split; [exact Hs'|]. intros _ [(_ & Hk1 & _)|Hb]; [lia|].
+          destruct (Z.eq_dec q j) as [->|]; [exact (NJ Hb)|apply (NK q); [lia|exact Hb]].
+        + split; [lia|]. left. destruct Hs' as [Hq1 Hs']. split; [apply Hnz; lia|]. split; [exact Hq1|].
+          pose proof (Hrun q ltac:(lia)) as R1. unfold inw in Hs', R1. destruct big.
+          * apply negb_false_iff, N.eqb_eq in Hs'. exact Hs'.
+          * apply N.eqb_eq in R1. apply N.eqb_neq in Hs'. congruence. }
+    destruct (sp i) eqn:Esp; cbn [negb].
+    - apply HC; [lia|auto].
+    - destruct (Z_lt_dec (i + 1) L) as [Hl|Hl].
+      + rewrite fnext_ok by lia. change (1 <? 0) with false. cbn [andb]. apply HC; [lia|auto].
+      + rewrite fnext_fail by lia. cbn [snd]. exists true, i. split; [reflexivity|]. split; [lia|].
+        split; [intros; lia|]. split; [lia|intro; lia].
+  Qed.
+End FlatSpecE.
+
+(* ---------- b B : lbuf_wordend backward ---------- *)
+Section FlatSpecB.
+  Variable F : Z -> chr.
+  Variable L : Z.
+  Local Notation kd i := (uc_kind (F i)).
+  Local Notation sp i := (uc_isspace (F i)).
+  Local Notation nlc i := (is_nl (F i)).
+
+  (* the scan also stops at j when j - 1 is the second line break crossed while only blanks were
+     seen: j is the first character of a line of blanks only (possibly just its terminator) that
+     ends before the start i *)
+  Definition b_blank_stop (i j : Z) : Prop :=
+    1 <= j /\ nlc (j - 1) = true /\ (forall k, j <= k < i -> sp k = true) /\ exists p'', j <= p'' < i /\ nlc p'' = true.
+  Definition b_stop (big : bool) (i k : Z) : Prop := word_start F big k \/ b_blank_stop i k.
+
+  Definition bstopb (i k : Z) : Prop := nlc k = true /\ exists p'', k < p'' < i /\ nlc p'' = true.
+
+  Lemma f_wordend_loop_bwd i p0 : p0 <= i -> p0 < L -> forall fuel p nl0, 0 <= p <= p0 -> Z.of_nat fuel > p + 1 ->
+    (forall k, p < k <= p0 -> sp k = true) -> (forall k, p <= k < p0 -> ~ bstopb i k) -> (nl0 = 0 \/ nl0 = 1) ->
+    (nl0 = 1 <-> exists p'', p <= p'' < i /\ nlc p'' = true) ->
+    exists inner s j, f_wordend_loop F L fuel (-1) nl0 p = Some (inner, (s, j)) /\ 0 <= j <= p /\
+      (forall k, j < k <= p0 -> sp k = true) /\ (forall k, j <= k < p0 -> ~ bstopb i k) /\
+      (if inner : bool
+       then (if s : bool then j = 0 else 1 <= j /\ sp j = true /\ bstopb i (j - 1))
+       else s = false /\ sp j = false).
+  Proof.
+    intros Hp0 Hp0L. induction fuel as [|f IH]; intros p nl0 Hp Hf Hsp Hnb Hn Hiff; [lia|]. cbn [f_wordend_loop].
+    destruct (sp p) eqn:Esp.
+    - destruct (Z_le_dec 1 p) as [Hl|Hl].
+      + rewrite fnext_ok by lia. cbv zeta. set (d := if nlc (p + -1) then 1 else 0).
+        assert (Hd : (d = 1 /\ nlc (p + -1) = true) \/ (d = 0 /\ nlc (p + -1) = false)) by (unfold d; destruct (nlc (p + -1)); auto).
+        clearbody d.
+        assert (Hsp' : forall k, p + -1 < k <= p0 -> sp k = true).
+        { intros k Hk. destruct (Z.eq_dec k p) as [->|]; [exact Esp|apply Hsp; lia]. }
+        destruct (Z.eqb_spec (nl0 + d) 2) as [E2|E2].
+        * change (-1 <? 0) with true. cbv iota. rewrite fnext_ok by lia. cbn [snd].
+          replace (p + -1 + - (-1)) with p by lia.
+          exists true, false, p. split; [reflexivity|]. split; [lia|]. split; [exact Hsp|].
+          split; [exact Hnb|]. split; [lia|]. split; [exact Esp|]. replace (p - 1) with (p + -1) by lia. split.
+          -- destruct Hd as [[_ H]|[H _]]; [exact H|lia].
+          -- assert (Hx : nl0 = 1) by lia. apply Hiff in Hx. destruct Hx as (p' & Hp' & Hx). exists p'. split; [lia|exact Hx].
+        * assert (NB : ~ bstopb i (p + -1)).
+          { intros (Hnl & p' & Hp' & Hx). assert (nl0 = 1) by (apply Hiff; exists p'; split; [lia|exact Hx]).
+            destruct Hd as [[H1 _]|[_ H1]]; [lia|congruence]. }
+          destruct (IH (p + -1) (nl0 + d)) as (inner & s & j & E & Hj & Hk & Hm & Hs); try lia; try exact Hsp'.
+          { intros k Hk. destruct (Z.eq_dec k (p + -1)) as [->|]; [exact NB|apply Hnb; lia]. }
+          { split.
+            - intro H1. destruct Hd as [[Hd1 Hd2]|[Hd1 Hd2]].
+              + exists (p + -1). split; [lia|exact Hd2].
+              + assert (Hx : nl0 = 1) by lia. apply Hiff in Hx. destruct Hx as (p' & Hp' & Hx). exists p'. split; [lia|exact Hx].
+            - intros (p' & Hp' & Hx). destruct (Z.eq_dec p' (p + -1)) as [->|Hne].
+              + destruct Hd as [[Hd1 Hd2]|[Hd1 Hd2]]; [|congruence]. lia.
+              + assert (Hy : nl0 = 1) by (apply Hiff; exists p'; split; [lia|exact Hx]). lia. }
+          exists inner, s, j. split; [exact E|]. split; [lia|]. split; [exact Hk|]. split; [exact Hm|exact Hs].
+      + rewrite fnext_fail by lia. exists true, true, p. split; [reflexivity|]. split; [lia|]. split; [exact Hsp|].
+        split; [exact Hnb|]. lia.
+    - exists false, false, p. split; [reflexivity|]. split; [lia|]. split; [exact Hsp|].
+      split; [exact Hnb|]. split; [reflexivity|exact Esp].
+  Qed.
+
+  Lemma f_wordend_bwd (big : bool) fuel i : 0 <= i < L -> Z.of_nat fuel > L ->
+    exists s j, f_wordend F L fuel big (-1) i = Some (s, j) /\ 0 <= j <= i /\
+      (forall k, j < k < i -> ~ b_stop big i k) /\
+      (if s : bool then j = 0 else j < i /\ b_stop big i j).
+  Proof.
+    intros Hi Hf. unfold f_wordend.
+    assert (HC : forall p0 nl0, 0 <= p0 ->
+      (p0 = i /\ sp i = true /\ nl0 = 0) \/ (p0 = i - 1 /\ sp i = false /\ nl0 = if nlc p0 then 1 else 0) ->
+      exists s j,
+        match f_wordend_loop F L fuel (-1) (nl0 + (if (0 <? -1) && nlc p0 then 1 else 0)) p0 with
+        | None => None
+        | Some (true, res) => Some res
+        | Some (false, (_, p')) => f_wordlast F L fuel (if big then 3%N else kd p') (-1) p'
+        end = Some (s, j) /\ 0 <= j <= i /\
+        (forall k, j < k < i -> ~ b_stop big i k) /\
+        (if s : bool then j = 0 else j < i /\ b_stop big i j)).
+    { intros p0 nl0 Hp0 Hc. change (0 <? -1) with false. cbn [andb]. rewrite Z.add_0_r.
+      destruct (f_wordend_loop_bwd i p0 ltac:(lia) ltac:(lia) fuel p0 nl0) as (inner & s & j & E & Hj & Hsp & Hnb & Hs); try lia.
+      { destruct Hc as [(_ & _ & ->)|(_ & _ & ->)]; [auto|destruct (nlc p0); auto]. }
+      { destruct Hc as [(-> & _ & ->)|(-> & _ & ->)].
+        - split; [lia|]. intros (p' & Hp' & _). lia.
+        - split.
+          + intro H1. exists (i - 1). split; [lia|]. destruct (nlc (i - 1)); [reflexivity|lia].
+          + intros (p' & Hp' & Hx). replace p' with (i - 1) in Hx by lia. rewrite Hx. reflexivity. }
+      rewrite E.
+      assert (M1 : forall k, j < k < i -> ~ b_stop big i k).
+      { intros k Hk [(Hk0 & _)|(Hk1 & Hnl & _ & p' & Hp' & Hx)].
+        - apply kd_nsp in Hk0. rewrite Hsp in Hk0 by lia. discriminate.
+        - apply (Hnb (k - 1)); [lia|]. split; [exact Hnl|]. exists p'. split; [lia|exact Hx]. }
+      destruct inner.
+      - exists s, j. split; [reflexivity|]. destruct s.
+        + split; [lia|]. split; [exact M1|exact Hs].
+        + destruct Hs as (Hj1 & Hspj & Hnl & p' & Hp' & Hx). split; [lia|]. split; [exact M1|]. split; [lia|].
+          right. split; [exact Hj1|]. split; [exact Hnl|]. split.
+          * intros k Hk. destruct (Z.eq_dec k j) as [->|]; [exact Hspj|apply Hsp; lia].
+          * exists p'. split; [lia|exact Hx].
+      - destruct Hs as (-> & Hnsp).
+        assert (Hji : j < i) by (destruct Hc as [(-> & Hc & _)|(-> & _ & _)]; [|lia]; destruct (Z.eq_dec j i) as [->|]; [congruence|lia]).
+        assert (Hkj : kd j <> 0%N) by (apply kd_nsp, Hnsp).
+        destruct (f_wordlast_bwd F L big fuel j ltac:(lia) Hf Hkj) as (s' & q & EW & Hq & Hrun & Hs').
+        exists s', q. split; [exact EW|]. split; [lia|].
+        assert (Hnz : forall k, q <= k <= j -> kd k <> 0%N) by (intros k Hk; eapply inw_nz; [exact Hkj|apply Hrun, Hk]).
+        split.
+        + intros k Hk. destruct (Z_lt_dec j k) as [Hlt|Hge]; [apply M1; lia|].
+          intros [(Hk0 & Hprev)|(_ & _ & Hspk & _)].
+          * destruct Hprev as [->|Hprev]; [lia|].
+            pose proof (Hrun k ltac:(lia)) as R1. pose proof (Hrun (k - 1) ltac:(lia)) as R2. unfold inw in R1, R2.
+            destruct big.
+            -- apply (Hnz (k - 1)); [lia|exact Hprev].
+            -- apply N.eqb_eq in R1, R2. congruence.
+          * rewrite Hspk in Hnsp by lia. discriminate.
+        + destruct s'; [exact Hs'|]. destruct Hs' as [Hq1 Hs']. split; [lia|]. left. split; [apply Hnz; lia|]. right.
+          pose proof (Hrun q ltac:(lia)) as R1. unfold inw in Hs', R1. destruct big.
+          * apply negb_false_iff, N.eqb_eq in Hs'. exact Hs'.
+          * apply N.eqb_eq in R1. apply N.eqb_neq in Hs'. congruence. }
+    destruct (sp i) eqn:Esp; cbn [negb].
+    - apply HC; [lia|auto].
+    - destruct (Z_le_dec 1 i) as [Hl|Hl].
+      + rewrite fnext_ok by lia. change (-1 <? 0) with true. cbn [andb]. apply HC; [lia|].
+        right. split; [lia|]. split; [reflexivity|reflexivity].
+      + rewrite fnext_fail by lia. cbn [snd]. exists true, i. split; [reflexivity|]. split; [lia|].
+        split; [intros; lia|lia].
+  Qed.
+End FlatSpecB.
+
+(* ---------- e E / b B over the buffer ---------- *)
+Lemma wordend_fwd_spec b big r o : buf_ne b -> vpos b r o ->
+  exists s r' o', lbuf_wordend (mfuel b) b big 1 r o = Some (s, r', o') /\ vpos b r' o' /\
+    let i := idx b r o in let j := idx b r' o' in
+    i <= j /\ (forall k, i < k < j -> ~ e_stop (fchr b) (nchars b) big i k) /\
+    (if s : bool then j = nchars b - 1 /\ (i < j -> ~ e_stop (fchr b) (nchars b) big i j)
+     else i < j /\ e_stop (fchr b) (nchars b) big i j).
+Proof.
+  intros NE V. pose proof (wordend_sim b big 1 (mfuel b) r o NE (or_introl eq_refl) V) as HS.
+  destruct (f_wordend_fwd (fchr b) (nchars b) big (mfuel b) (idx b r o) (idx_range b r o V) (mfuel_enough b))
+    as (s & j & E & Hj & Hmin & Hs).
+  rewrite E in HS. destruct (lbuf_wordend (mfuel b) b big 1 r o) as [[[s' r'] o']|]; cbn in HS; [|contradiction].
+  destruct HS as (-> & V' & I'). exists s, r', o'. split; [reflexivity|]. split; [exact V'|]. cbv zeta. rewrite I'.
+  split; [lia|]. split; [exact Hmin|exact Hs].
+Qed.
+
+Lemma wordend_bwd_spec b big r o : buf_ne b -> vpos b r o ->
+  exists s r' o', lbuf_wordend (mfuel b) b big (-1) r o = Some (s, r', o') /\ vpos b r' o' /\
+    let i := idx b r o in let j := idx b r' o' in
+    j <= i /\ (forall k, j < k < i -> ~ b_stop (fchr b) big i k) /\
+    (if s : bool then j = 0 else j < i /\ b_stop (fchr b) big i j).
+Proof.
+  intros NE V. pose proof (wordend_sim b big (-1) (mfuel b) r o NE (or_intror eq_refl) V) as HS.
+  destruct (f_wordend_bwd (fchr b) (nchars b) big (mfuel b) (idx b r o) (idx_range b r o V) (mfuel_enough b))
+    as (s & j & E & Hj & Hmin & Hs).
+  rewrite E in HS. destruct (lbuf_wordend (mfuel b) b big (-1) r o) as [[[s' r'] o']|]; cbn in HS; [|contradiction].
   destruct HS as (-> & V' & I'). exists s, r', o'. split; [reflexivity|]. split; [exact V'|]. cbv zeta. rewrite I'.
   split; [lia|]. split; [exact Hmin|exact Hs].
 Qed.
